@@ -1,0 +1,59 @@
+//go:build verif
+
+package service
+
+import (
+	"time"
+
+	"github.com/jcmturner/gokrb5/v8/types"
+)
+
+// VerifYield, when set, is called at the named points of the replay cache operations so that a
+// cooperative scheduler can enumerate interleavings deterministically. Build tag verif only.
+var VerifYield func(point string)
+
+func verifYield(point string) {
+	if f := VerifYield; f != nil {
+		f(point)
+	}
+}
+
+// VerifNewCache returns a private replay cache (the package singleton is left alone).
+func VerifNewCache() *Cache {
+	return &Cache{entries: make(map[string]clientEntries)}
+}
+
+// VerifAdvance simulates the clock moving forward by d: every time stored in the cache moves back by d.
+func (c *Cache) VerifAdvance(d time.Duration) {
+	c.mux.Lock()
+	defer c.mux.Unlock()
+	for ke, ce := range c.entries {
+		nm := make(map[time.Time][]replayCacheEntry, len(ce.replayMap))
+		for k, es := range ce.replayMap {
+			var nes []replayCacheEntry
+			for _, e := range es {
+				e.presentedTime = e.presentedTime.Add(-d)
+				e.cTime = e.cTime.Add(-d)
+				nes = append(nes, e)
+			}
+			nm[k.Add(-d)] = nes
+		}
+		ce.replayMap = nm
+		c.entries[ke] = ce
+	}
+}
+
+// VerifSize returns the number of (client, client time, service) entries held.
+func (c *Cache) VerifSize() int {
+	c.mux.RLock()
+	defer c.mux.RUnlock()
+	n := 0
+	for _, ce := range c.entries {
+		for _, es := range ce.replayMap {
+			n += len(es)
+		}
+	}
+	return n
+}
+
+var _ = types.PrincipalName{}
